@@ -1,4 +1,5 @@
 import LachesisVerif.Proofs.ComposeRun
+import LachesisVerif.Proofs.ComposeEpochs2
 import LachesisVerif.Props.C01
 import LachesisVerif.Props.C08
 import LachesisVerif.Props.C10
@@ -40,6 +41,12 @@ Corollaries, WITHOUT `hobs`, `ValsOK`, `FrameBound`:
   of the executable reference `Spec/Lachesis.lean`.
 * `indexed_restart_invisible_partial` (C08): the restarted instance re-indexes nothing — its index
   state is the persisted one — and answers every later event like the instance that kept running.
+* `indexed_multi_epoch_partial` (C01 over several epochs; per epoch `indexed_epoch_partial`): two combined
+  instances with the same application seal function, fed epoch by epoch, each in its own
+  parents-first orders, emit the same `(epoch, frame, Atropos, sealed, cheaters)` sequence and make the
+  same epoch transitions; a seal leaves both exactly in `Model.Indexed.initial (ep+1) nv` (new Orderer
+  state, empty index for the new validators). No `hseal`; per epoch the remaining hypotheses are
+  `EpochHyps` (last section, `Proofs/ComposeEpochs*.lean`).
 * `indexed_no_trace` (C07): `buildIndexed` and a rejected `processIndexed` return literally the previous
   combined state, so all later answers and states are equal (true by construction of the model's
   transaction; that the real `DropNotFlushed` restores the tables is the correspondence check).
@@ -47,7 +54,8 @@ Corollaries, WITHOUT `hobs`, `ValsOK`, `FrameBound`:
 Hypotheses that REMAIN (named, hence `_partial`):
 * the property's own: `Valid` (what the event checks + ordering buffer guarantee), `FramesAccepted`
   (claimed frames obey the frame rule), `BFT`, parents-first orders covering all events;
-* `hseal`: the application never seals — one epoch (C01_multi_epoch_partial is not composed);
+* `hseal`: the application never seals — one epoch (all corollaries except `indexed_multi_epoch_partial`
+  and `indexed_epoch_partial`, which compose `C01_multi_epoch_partial`'s argument and have no `hseal`);
 * `hsmall`: `nVals + number of events < 2^32` (C05: branch ids are 32-bit in the Go code);
 * `WeightsOK` + `BuiltFor`: validators are NAMED by their canonical index (`Net.w` is indexed that way:
   weight descending; weights non-zero and < 2^32) and the record was built by the builder;
@@ -466,5 +474,146 @@ example : ∃ (s₂ : IState) (bss : List (List Block)),
   exact ⟨s₂, bss, h1, h5, h6⟩
 
 end Example
+
+/-! ### C01 over several epochs for the combined model (`Proofs/ComposeEpochs*.lean`)
+
+The seal transition of the combined model is part of `Model.Indexed.processIndexed`: when a `Process`
+call emits a sealed frame the new combined state is `⟨o', VState.init o'.vals.len, []⟩` — the Orderer
+state for the next epoch and an EMPTY index for the new validators (`abft.IndexedLachesis`:
+`OnEpochSealed` → `DagIndexer.Reset(newValidators)`). `Compose.runEpochIx` submits the events of one
+epoch and stops at the call that seals (events of the old epoch arriving after the seal are not
+submitted, as in `C01_late_events_partial`); `Compose.runEpochsIx` goes epoch after epoch with ONE
+application for the whole run. -/
+section Epochs
+
+/-- the hypotheses about ONE epoch of a several-epoch run: `N` the epoch's history, `vals` the
+    validator record both instances hold in this epoch, `ids₁/₂` the two processing orders -/
+structure EpochHyps (N : Net) (vals : Vals) (ids₁ ids₂ : List Nat) : Prop where
+  hvalid : Valid N.nVals N.h
+  hframes : N.FramesAccepted
+  hbft : N.BFT
+  horder₁ : PFFrom N [] ids₁
+  horder₂ : PFFrom N [] ids₂
+  hall₁ : ∀ e, e < N.h.length → e ∈ ids₁
+  hall₂ : ∀ e, e < N.h.length → e ∈ ids₂
+  hW : WeightsOK N
+  hB : BuiltFor N vals
+  hchk : Checked N
+  hsmall : N.nVals + N.h.length < 4294967296
+
+/-- the hypotheses epoch by epoch (recursion over the epochs, starting in epoch `ep` with validators
+    `vals`): `EpochHyps` for this epoch, and for every validator record `nv` the application may return
+    in this epoch the remaining epochs are OK from `(ep+1, nv)` -/
+def IndexedEpochsOK (sealAt : Nat → Nat → Option Vals) : Nat → Vals → List IEpochPair → Prop
+  | _, _, [] => True
+  | ep, vals, p :: rest =>
+    EpochHyps p.N vals p.ids₁ p.ids₂ ∧
+    ∀ nv, (∃ F, sealAt ep F = some nv) → IndexedEpochsOK sealAt (Gen.Orderer.sealedEpoch ep) nv rest
+
+theorem EpochHyps.gok {N : Net} {vals : Vals} {ids₁ ids₂ : List Nat} (H : EpochHyps N vals ids₁ ids₂) : GOK N vals :=
+  Consensus.gok H.hvalid H.hframes H.hbft H.hW H.hB H.hchk H.hsmall
+
+/-- `ValsOK`, `FrameBound`, "no double parents" derived per epoch (C12, C13) -/
+theorem gEpochsOK_of (sealAt : Nat → Nat → Option Vals) : ∀ (ps : List IEpochPair) (ep : Nat) (vals : Vals),
+    IndexedEpochsOK sealAt ep vals ps → GEpochsOK sealAt ep vals ps := by
+  intro ps
+  induction ps with
+  | nil => intro _ _ _; trivial
+  | cons p rest ih =>
+    intro ep vals h
+    exact ⟨h.1.gok, h.1.horder₁, h.1.horder₂, h.1.hall₁, h.1.hall₂, fun nv hnv => ih _ nv (h.2 nv hnv)⟩
+
+/-- **C01 for one epoch of the combined model, application may seal.** Both instances start the epoch
+    in `Model.Indexed.initial ep vals` (empty index), get all events of the epoch's history `N`, each
+    in its own parents-first order, with applications that seal at the same frames of this epoch
+    with the same sets (`hsa`). Both accept every event submitted and emit the same blocks `bs`
+    (epoch, frame, Atropos, sealed flag, cheater list — each list computed by the instance's own
+    index, equal to C03's sentence `specCheaters N`). Either both seal at the same frame (last entry
+    of `bs`), skip the rest of their lists and are both exactly `initial (ep+1) nv` — next epoch's
+    Orderer state AND an empty index for `nv` (C09 for the combined state) — or neither seals,
+    nothing is skipped, same epoch, validators and last decided frame.
+    Gone compared with `C01_epoch_partial`: `hobs₁/₂`, `hvals`, `hbound`. -/
+theorem indexed_epoch_partial (N : Net) (vals : Vals) (app₁ app₂ : App) (ep : Nat) (ids₁ ids₂ : List Nat)
+    (H : EpochHyps N vals ids₁ ids₂) (hsa : ∀ f, app₁.sealAt ep f = app₂.sealAt ep f) :
+    ∃ t₁ t₂ bs sk₁ sk₂, runEpochIx N app₁ ids₁ (Model.Indexed.initial ep vals) [] = some (t₁, bs, sk₁) ∧
+      runEpochIx N app₂ ids₂ (Model.Indexed.initial ep vals) [] = some (t₂, bs, sk₂) ∧
+      (∀ b ∈ bs, b.cheaters = specCheaters N b.d.atropos) ∧
+      ((bs.any (·.d.sealed) = true ∧ ∃ nv, (∃ F, app₁.sealAt ep F = some nv) ∧
+          t₁ = Model.Indexed.initial (Gen.Orderer.sealedEpoch ep) nv ∧
+          t₂ = Model.Indexed.initial (Gen.Orderer.sealedEpoch ep) nv) ∨
+       (bs.any (·.d.sealed) = false ∧ sk₁ = [] ∧ sk₂ = [] ∧ t₁.o.epoch = ep ∧ t₂.o.epoch = ep ∧
+          t₁.o.vals = vals ∧ t₂.o.vals = vals ∧ t₁.o.ldf = t₂.o.ldf)) :=
+  indexed_epoch_agree H.gok ep hsa ids₁ ids₂ H.horder₁ H.horder₂ H.hall₁ H.hall₂
+
+/-- **C01 over several epochs for the combined model.** Two instances of `Model.Indexed` — each an
+    Orderer over ITS OWN vector index, the index reset to the new validators by every seal — start
+    from the same genesis `Model.Indexed.initial ep vals`, have applications with the same seal
+    function `sealAt` (`hs₁`, `hs₂`; their `idKey` may differ) and receive, epoch by epoch (`ps`), all
+    events of that epoch's history in their own parents-first orders; the next epoch's events are
+    submitted only after the current one sealed, events of an old epoch arriving after its seal are
+    not submitted (`runEpochIx`). Both accept every event they are given, emit the SAME list of
+    blocks `bs : List Block` — i.e. the same sequence `(epoch, frame, Atropos, sealed, cheaters)`, hence
+    the same epoch transitions — and end in the same epoch with the same validators and last decided
+    frame.
+    No oracle hypothesis, no `ValsOK`, no `FrameBound`: per epoch they are derived as in
+    `indexed_order_independent_partial` (C05 for the instance's own index, C12, C13), and `hseal` is gone.
+    Remaining hypotheses, all in `IndexedEpochsOK sealAt ep vals ps` (= per epoch `EpochHyps`, for the
+    validator record the instances hold in that epoch: `vals` at first, then whatever `sealAt` returned):
+    * the property's own: `hvalid` (`Valid`), `hframes` (`FramesAccepted`), `hbft` (`BFT`), `horder₁/₂`
+      (parents-first orders), `hall₁/₂` (covering all events of the epoch);
+    * `hsmall`: `nVals + number of events < 2^32` per epoch (C05);
+    * `hW` (`WeightsOK`) + `hB` (`BuiltFor N vals`): validators named by canonical index, and the record
+      the instances hold in the epoch — in later epochs the one RETURNED BY THE APPLICATION — was built
+      by the builder for that epoch's validators;
+    * `hchk` (`Checked`): every event passed the event checks;
+    * `hs₁`, `hs₂`: both applications seal by the same function; same initial `(ep, vals)`.
+    Not covered: restarts combined with seals. -/
+theorem indexed_multi_epoch_partial (app₁ app₂ : App) (sealAt : Nat → Nat → Option Vals)
+    (hs₁ : app₁.sealAt = sealAt) (hs₂ : app₂.sealAt = sealAt) (ps : List IEpochPair) (ep : Nat) (vals : Vals)
+    (hok : IndexedEpochsOK sealAt ep vals ps) :
+    ∃ (t₁ t₂ : IState) (bs : List Block),
+      runEpochsIx app₁ (ps.map IEpochPair.in₁) (Model.Indexed.initial ep vals) [] = some (t₁, bs) ∧
+      runEpochsIx app₂ (ps.map IEpochPair.in₂) (Model.Indexed.initial ep vals) [] = some (t₂, bs) ∧
+      t₁.o.epoch = t₂.o.epoch ∧ t₁.o.vals = t₂.o.vals ∧ t₁.o.ldf = t₂.o.ldf :=
+  indexed_epochs_agree app₁ app₂ sealAt hs₁ hs₂ ps ep vals [] (gEpochsOK_of sealAt ps ep vals hok)
+
+/-! non-vacuity: the three-event chain, twice; the application seals epoch 1 at frame 1 (as in
+    `C01.EpochExample`); the two instances order event ids differently (`idKey`) -/
+namespace EpochsExample
+open ElectionExample C01.EpochExample
+
+def app₁ : App := { idKey := fun x => x, sealAt := exSeal }
+def app₂ : App := { idKey := fun x => 10 - x, sealAt := exSeal }
+def pair : IEpochPair := ⟨net, [0, 1, 2], [0, 1, 2]⟩
+
+theorem hyps : EpochHyps net ElectionExample.vals [0, 1, 2] [0, 1, 2] :=
+  ⟨valid, framesAccepted, bft, OrdererProofs.Example.pf, OrdererProofs.Example.pf, ex_all, ex_all,
+   Example.weightsOK, Example.builtFor, Example.checked, by decide⟩
+
+theorem ok : IndexedEpochsOK exSeal 1 ElectionExample.vals [pair, pair] := by
+  refine ⟨hyps, ?_⟩
+  intro nv hnv
+  obtain ⟨F, hF⟩ := hnv
+  unfold exSeal at hF
+  split at hF
+  · cases hF
+    exact ⟨hyps, fun _ _ => trivial⟩
+  · cases hF
+
+/-- all hypotheses of `indexed_multi_epoch_partial` hold on it -/
+example : ∃ (t₁ t₂ : IState) (bs : List Block),
+    runEpochsIx app₁ ([pair, pair].map IEpochPair.in₁) (Model.Indexed.initial 1 ElectionExample.vals) [] = some (t₁, bs) ∧
+    runEpochsIx app₂ ([pair, pair].map IEpochPair.in₂) (Model.Indexed.initial 1 ElectionExample.vals) [] = some (t₂, bs) ∧
+    t₁.o.epoch = t₂.o.epoch ∧ t₁.o.vals = t₂.o.vals ∧ t₁.o.ldf = t₂.o.ldf :=
+  indexed_multi_epoch_partial app₁ app₂ exSeal rfl rfl [pair, pair] 1 ElectionExample.vals ok
+
+/-- … and the combined model indeed seals epoch 1 at its first block (index reset) and goes on in
+    epoch 2: two blocks, empty cheater lists -/
+example : (runEpochsIx app₁ ([pair, pair].map IEpochPair.in₁) (Model.Indexed.initial 1 ElectionExample.vals) []).map (·.2) =
+    some [⟨⟨1, 1, 0, true⟩, []⟩, ⟨⟨2, 1, 0, false⟩, []⟩] := by decide +kernel
+
+end EpochsExample
+
+end Epochs
 
 end Consensus
